@@ -24,7 +24,9 @@ LEVEL_TEXT = ('machine-checked theorems (Coq) for every field, EVERY ring size n
               'vertical pad/crop commutes with level-wise maps. The Gallina model is executed (extraction) against the '
               'real shard_map implementation on meshes with up to 8 host devices')
 LEVEL_NOTE = ('theorems are about the Gallina model Model/Sharding.v: a ring of n devices with ppermute = rotation given by '
-              'the perm lists, all_gather(tiled) = concatenation in device order, axis_index = d, psum 1 = n. NOT modelled / '
+              'the perm lists, all_gather(tiled) = concatenation in device order, axis_index = d, psum 1 = n; the index '
+              'expressions, operand offsets, permutations, loop bounds, guards and comparison operators of the model are '
+              'proved equal to the ones regenerated from jax_numpy_utils.py each run (Gen/ShardingSrc.v, fail-closed). NOT modelled / '
               'not proved: that XLA collectives implement rotation/concatenation, that shard_map partitions as the specs say, '
               'that with_sharding_constraint is the identity, batch axes (pointwise) - these are exercised by the correspondence '
               'on <= 8 devices only. Transforms / filters / implicit operators on a mesh are covered by the implementation-level '
@@ -98,11 +100,7 @@ def _einsum_cases(ctx):
               dict(subscripts='ism,zij->zsmj', lhs_shape=[i, 2, m], rhs_shape=[Z, i, j], rhs_spec=sp3, out_spec=sp4),       # forward Fourier (stacked)
               dict(subscripts='im,zij->zmj', lhs_shape=[i, 2 * m], rhs_shape=[Z, i, j], rhs_spec=sp3, out_spec=sp3),        # forward Fourier
               dict(subscripts='mjl,zsmj->zsml', lhs_shape=[m, j, l], rhs_shape=[Z, 2, m, j], rhs_spec=sp4, out_spec=sp4)]   # forward Legendre
-        if x * y == 1 or not quick:
-            pass
-        for t in tr:
-            if (x == 1 and t['subscripts'][0] == 'i') or (y == 1 and t['subscripts'][0] == 'm'):
-                pass  # ring of size 1: still a valid (trivial) case
+        for t in tr:   # rings of size 1 (x or y = 1) are valid, trivial cases and are kept
             cases.append(dict(t, axis_names=ZXY, mesh_shape=[z, x, y]))
     for (z, x, y) in ([(8, 1, 1), (4, 1, 2)] if quick else [(8, 1, 1), (4, 1, 2), (2, 2, 2), (4, 2, 1), (2, 1, 1)]):
         g = z * int(rng.integers(1, 3)); m = x * 2; l = y * 2
@@ -114,7 +112,7 @@ def _einsum_cases(ctx):
     combos = [(True, False), (False, False), (None, True), (True, True), (False, True)]
     for k, cs_ in enumerate(cases):
         if not quick:
-            sel = combos
+            sel = combos if cs_['subscripts'] in ('ij,jk->ik', 'gh,hml->gml', 'lgh,hml->gml') else [combos[(k + t) % 5] for t in range(3)]
         elif k < 5:
             sel = combos[:3]                       # rings of size 1,2,4,6,8: gather, scatter, default
         elif cs_['subscripts'] == 'ij,jk->ik':
